@@ -4,6 +4,7 @@
   `Track.takeN/dropN`, `StrictInc`, `Collinear`, `segment`) and helper lemmas: lean/Verif/Lemmas/C17.lean.
 -/
 import Verif.Lemmas.C17
+import Verif.Lemmas.C17D
 
 namespace Verif.C17
 open Verif.Py
@@ -540,5 +541,280 @@ example : gaussianTimes true 1 true [⟨[(0, 1), (1, 2), (3, 4)], none, none⟩,
 /-- `remove_tracks_in_rect` only removes whole tracks -/
 theorem removeInRect_sublist (k : Kymo) (r : Rect) (all : Bool) (g : List Track) :
     (removeInRect k r all g).Sublist g := List.filter_sublist
+
+/-! ## Deepening round D — the invariant the other theorems assume is established by the code -/
+
+theorem wf_of_same (t tr : Track) (hp : t.pts = tr.pts) (hc : t.counts = tr.counts) (h : WF tr) : WF t := by
+  unfold WF at *
+  rw [hp, hc]; exact h
+
+/-- Every editing operation that succeeds turns a group of well-formed tracks (non-empty, strictly
+    increasing scan lines, one photon count per node) into a group of well-formed tracks — for
+    arbitrary arguments, negative Python node indices included. -/
+theorem applyOp_preserves_wf (k : Kymo) (g g' : List Track) (op : Op) (hwf : ∀ tr ∈ g, WF tr)
+    (h : applyOp k g op = .ok g') : ∀ tr ∈ g', WF tr := by
+  intro t ht
+  cases op with
+  | split i node minLen =>
+    obtain ⟨tr, htr, n, h0, h1, hm⟩ := splitTrack_members g i node minLen g' h
+    rcases hm t ht with h | rfl | rfl
+    · exact hwf t h
+    · exact wf_takeN tr n (hwf tr htr) h0
+    · exact wf_dropN tr n (hwf tr htr) h1
+  | merge i ni j nj =>
+    obtain ⟨M, hM, _, hm⟩ := mergeTracks_members g i j ni nj g' hwf h
+    rcases hm t ht with h | rfl
+    · exact hwf t h
+    · exact hM
+  | filter minLen minDur =>
+    simp only [applyOp, Except.ok.injEq] at h
+    subst h
+    obtain ⟨tr, htr, hp, hc⟩ := filterTracks_members k.lt minLen minDur g t ht
+    exact wf_of_same t tr hp hc (hwf tr htr)
+  | interp =>
+    simp only [applyOp, Except.ok.injEq] at h
+    subst h
+    obtain ⟨tr, htr, rfl⟩ := List.mem_map.1 ht
+    exact wf_interpolate tr (hwf tr htr)
+  | rect r all =>
+    simp only [applyOp, Except.ok.injEq] at h
+    subst h
+    exact hwf t ((removeInRect_sublist k r all g).subset ht)
+
+/-- … hence after ANY program of split / merge / filter / interpolate / remove-in-rectangle operations
+    (failing operations leave the group unchanged) all tracks are still well formed: the hypotheses
+    `StrictInc`, `pts ≠ []` of the interpolation, merge-order and duration-bound theorems hold at
+    every step of an editing session that starts from well-formed tracks. -/
+theorem runProg_preserves_wf (k : Kymo) (g : List Track) (ops : List Op) (hwf : ∀ tr ∈ g, WF tr) :
+    ∀ tr ∈ (runProg k g ops).2, WF tr := by
+  induction ops generalizing g with
+  | nil => exact hwf
+  | cons op ops ih =>
+    unfold runProg
+    cases h : applyOp k g op with
+    | ok g' => exact ih g' (applyOp_preserves_wf k g g' op hwf h)
+    | error e => exact ih g hwf
+
+example : WF ⟨[(0, 1), (2, 2), (3, 5)], some 1, some [4, 5, 6]⟩ := by
+  refine ⟨by simp, by unfold StrictInc; decide, ?_⟩
+  intro c hc; cases hc; rfl
+
+def Op.isInterp : Op → Bool
+  | .interp => true
+  | _ => false
+
+theorem applyOp_no_new_nodes (k : Kymo) (g g' : List Track) (op : Op) (hwf : ∀ tr ∈ g, WF tr)
+    (hop : op.isInterp = false) (h : applyOp k g op = .ok g') : ∀ p ∈ nodesOf g', p ∈ nodesOf g := by
+  intro p hp
+  rw [mem_nodesOf] at hp ⊢
+  obtain ⟨t, ht, hpt⟩ := hp
+  cases op with
+  | split i node minLen =>
+    obtain ⟨tr, htr, n, _, _, hm⟩ := splitTrack_members g i node minLen g' h
+    rcases hm t ht with h | rfl | rfl
+    · exact ⟨t, h, hpt⟩
+    · exact ⟨tr, htr, (List.take_sublist _ _).subset hpt⟩
+    · exact ⟨tr, htr, (List.drop_sublist _ _).subset hpt⟩
+  | merge i ni j nj =>
+    obtain ⟨M, _, hM, hm⟩ := mergeTracks_members g i j ni nj g' hwf h
+    rcases hm t ht with h | rfl
+    · exact ⟨t, h, hpt⟩
+    · exact hM p hpt
+  | filter minLen minDur =>
+    simp only [applyOp, Except.ok.injEq] at h
+    subst h
+    obtain ⟨tr, htr, hp', _⟩ := filterTracks_members k.lt minLen minDur g t ht
+    exact ⟨tr, htr, hp' ▸ hpt⟩
+  | interp => simp [Op.isInterp] at hop
+  | rect r all =>
+    simp only [applyOp, Except.ok.injEq] at h
+    subst h
+    exact ⟨t, (removeInRect_sublist k r all g).subset ht, hpt⟩
+
+/-- **Editing never invents or alters a node**: after any program of split / merge / filter /
+    remove-in-rectangle operations every node (scan line, coordinate) of every track is a node of
+    some track of the group the program started from. -/
+theorem runProg_no_new_nodes (k : Kymo) (g : List Track) (ops : List Op) (hwf : ∀ tr ∈ g, WF tr)
+    (hno : ∀ op ∈ ops, op.isInterp = false) : ∀ p ∈ nodesOf (runProg k g ops).2, p ∈ nodesOf g := by
+  induction ops generalizing g with
+  | nil => intro p hp; exact hp
+  | cons op ops ih =>
+    unfold runProg
+    have hno' : ∀ o ∈ ops, o.isInterp = false := fun o ho => hno o (List.mem_cons_of_mem _ ho)
+    cases h : applyOp k g op with
+    | ok g' =>
+      intro p hp
+      exact applyOp_no_new_nodes k g g' op hwf (hno op (by simp)) h p
+        (ih g' (applyOp_preserves_wf k g g' op hwf h) hno' p hp)
+    | error e => exact ih g hwf hno'
+
+example : (runProg ⟨1, some 1, 1 / 8⟩ [⟨[(0, 1), (1, 2), (3, 4)], none, none⟩, ⟨[(5, 5)], none, none⟩]
+    [.split 0 1 1, .merge 0 0 2 0, .filter 2 0]).2
+    = [⟨[(1, 2), (5, 5)], some (1 / 8), none⟩] := by decide +kernel
+
+/-! ## composition laws -/
+
+/-- **Split followed by reconnecting the two parts is the identity**: splitting track `i` at node `n`
+    appends the two parts at the end of the group; connecting the last node of the first part with the
+    first node of the second part gives back the track (nodes, photon counts, minimum duration) and
+    leaves every other track as it was. -/
+theorem split_merge_roundtrip (g : List Track) (i : Nat) (tr : Track) (hi : g[i]? = some tr) (n : Nat)
+    (h0 : 0 < n) (h1 : n < tr.len) (hs : StrictInc tr.pts) (minLen : Int) (hb : minLen ≤ n)
+    (ha : minLen ≤ (tr.len : Int) - n) :
+    ∃ g', splitTrack g i n minLen = .ok g' ∧
+      mergeTracks g' (g.length - 1) ((n : Int) - 1) g.length 0 = .ok (g.eraseIdx i ++ [tr]) := by
+  have hil : i < g.length := (List.getElem?_eq_some_iff.1 hi).1
+  have hlen : tr.pts.length = tr.len := rfl
+  refine ⟨g.eraseIdx i ++ [tr.takeN n, tr.dropN n], ?_, ?_⟩
+  · rw [splitTrack_spec g i tr hi n h0 h1 minLen]
+    have e1 : (tr.takeN n).len = n := by simp only [Track.takeN, Track.len, List.length_take]; omega
+    have e2 : (tr.dropN n).len = tr.len - n := by simp only [Track.dropN, Track.len, List.length_drop]
+    have d1 : decide (minLen ≤ ((tr.takeN n).len : Int)) = true := by rw [e1]; simpa using hb
+    have d2 : decide (minLen ≤ ((tr.dropN n).len : Int)) = true := by
+      rw [e2]; simp only [decide_eq_true_eq]; omega
+    simp [List.filter, d1, d2]
+  · have hE : (g.eraseIdx i).length = g.length - 1 := by rw [List.length_eraseIdx]; simp [hil]
+    obtain ⟨m, rfl⟩ : ∃ m, n = m + 1 := ⟨n - 1, by omega⟩
+    have hm1 : m < tr.pts.length := by omega
+    have hm2 : m + 1 < tr.pts.length := by omega
+    have hcast : ((m + 1 : Nat) : Int) - 1 = (m : Int) := by omega
+    have hz : (0 : Int) = ((0 : Nat) : Int) := rfl
+    rw [hcast, hz]
+    have hA : (g.eraseIdx i ++ [tr.takeN (m + 1), tr.dropN (m + 1)])[g.length - 1]? = some (tr.takeN (m + 1)) := by
+      rw [← hE, List.getElem?_append_right (Nat.le_refl _)]; simp
+    have hB : (g.eraseIdx i ++ [tr.takeN (m + 1), tr.dropN (m + 1)])[g.length]? = some (tr.dropN (m + 1)) := by
+      have : g.length = (g.eraseIdx i).length + 1 := by omega
+      rw [this, List.getElem?_append_right (by omega)]; simp
+    have hpa : (tr.takeN (m + 1)).pts[m]? = some tr.pts[m] := by
+      simp only [Track.takeN]
+      rw [List.getElem?_take_of_lt (by omega), List.getElem?_eq_getElem hm1]
+    have hpb : (tr.dropN (m + 1)).pts[0]? = some tr.pts[m + 1] := by
+      simp only [Track.dropN]
+      rw [List.getElem?_drop, List.getElem?_eq_getElem (by omega)]
+    have hlt : (tr.pts[m]).1 < (tr.pts[m + 1]).1 :=
+      List.pairwise_iff_getElem.1 hs m (m + 1) hm1 hm2 (by omega)
+    rw [merge_conserves_undiscarded _ (g.length - 1) g.length m 0 _ _ _ _ hA hB hpa hpb hlt]
+    have hne : ¬ g.length - 1 = g.length := by omega
+    simp only [hne, if_false]
+    have hM : mergedTrack (tr.takeN (m + 1)) (tr.dropN (m + 1)) m 0 = tr := by
+      unfold mergedTrack Track.takeN Track.dropN
+      cases tr with
+      | mk pts md cs =>
+        cases cs with
+        | none => simp [List.take_take]
+        | some c => simp [List.take_take]
+    rw [hM, ← hE, List.set_append_right _ _ (Nat.le_refl _)]
+    simp only [Nat.sub_self, List.set_cons_zero]
+    have : (g.eraseIdx i).length + 1 = (g.eraseIdx i).length + 1 := rfl
+    rw [show g.length = (g.eraseIdx i).length + 1 by omega,
+      List.eraseIdx_append_of_length_le (by omega)]
+    simp
+
+example : ∃ g', splitTrack [⟨[(9, 9)], none, none⟩, ⟨[(0, 1), (1, 2), (3, 4)], some 1, some [5, 6, 7]⟩] 1 (2 : Nat) 1 = .ok g' ∧
+    mergeTracks g' 1 1 2 0 = .ok [⟨[(9, 9)], none, none⟩, ⟨[(0, 1), (1, 2), (3, 4)], some 1, some [5, 6, 7]⟩] :=
+  ⟨[⟨[(9, 9)], none, none⟩, ⟨[(0, 1), (1, 2)], some 1, some [5, 6]⟩, ⟨[(3, 4)], some 1, some [7]⟩],
+    by decide +kernel, by decide +kernel⟩
+
+/-- **interpolating twice = interpolating once** -/
+theorem interpolate_idempotent (tr : Track) (hne : tr.pts ≠ []) :
+    tr.interpolate.interpolate = tr.interpolate := by
+  unfold Track.interpolate
+  simp only [interpolate_idem tr.pts hne]
+
+/-- **centroid refinement of already refined tracks fills the same lines**: refining twice returns
+    tracks on exactly the scan lines of refining once (whatever the two estimators do). -/
+theorem refine_refine_span (f f' : Int → Rat → Rat) (s s' : Int → Rat → Int) (g : List Track)
+    (hne : ∀ tr ∈ g, tr.pts ≠ []) :
+    (refineCentroid f' s' (refineCentroid f s g)).map (·.times) = (refineCentroid f s g).map (·.times) := by
+  simp only [refineCentroid, List.map_map]
+  apply List.map_congr_left
+  intro tr htr
+  simp only [Function.comp, Track.times, List.map_map]
+  have hfst : ∀ (h : Int → Rat → Rat) (l : List Pt), (l.map fun p => (p.1, h p.1 p.2)).map (·.1) = l.map (·.1) := by
+    intro h l; rw [List.map_map]; rfl
+  have e1 := hfst f (interpolate tr.pts)
+  rw [interpolate_times_eq] at e1
+  have hab : tmin tr.pts ≤ tmax tr.pts := by
+    cases hp : tr.pts with
+    | nil => exact absurd hp (hne tr htr)
+    | cons p ps => have := tmin_le_tmax_mem (p :: ps) p (by simp); omega
+  have hsi : StrictInc ((interpolate tr.pts).map fun p => (p.1, f p.1 p.2)) := by
+    have h := arange_pairwise (tmin tr.pts) (tmax tr.pts + 1)
+    rw [← e1, List.pairwise_map] at h
+    exact h
+  obtain ⟨h1, h2⟩ := tmin_tmax_of_times _ hsi _ _ hab e1
+  have hc : ∀ h : Int → Rat → Rat, ((fun x : Pt => x.1) ∘ fun p : Pt => (p.1, h p.1 p.2)) = fun p => p.1 :=
+    fun _ => rfl
+  rw [hc, hc, interpolate_times_eq, interpolate_times_eq, h1, h2]
+
+/-- **filtering twice = filtering once with both thresholds**: the tracks kept are those meeting both
+    pairs of thresholds and the minimum observable duration is the maximum of the old value and both
+    bounds (filters never lower it, and commute). -/
+theorem filter_filter (lt : Rat) (L₁ L₂ : Int) (D₁ D₂ : Rat) (g : List Track) :
+    filterTracks lt L₂ D₂ (filterTracks lt L₁ D₁ g)
+      = (g.filter fun tr => keepTrack lt L₁ D₁ tr && keepTrack lt L₂ D₂ tr).map fun tr =>
+          { tr with minDur := some (max (max (tr.minDur.getD 0) (minObservable lt L₁ D₁)) (minObservable lt L₂ D₂)) } := by
+  unfold filterTracks
+  rw [List.filter_map, List.filter_filter, List.map_map]
+  congr 1
+  congr 1
+  funext tr
+  exact Bool.and_comm _ _
+
+theorem filter_idempotent (lt : Rat) (L : Int) (D : Rat) (g : List Track) :
+    filterTracks lt L D (filterTracks lt L D g) = filterTracks lt L D g := by
+  rw [filter_filter]
+  unfold filterTracks
+  have h1 : (g.filter fun tr => keepTrack lt L D tr && keepTrack lt L D tr) = g.filter (keepTrack lt L D) := by
+    congr 1; funext tr; simp
+  rw [h1]
+  apply List.map_congr_left
+  intro tr _
+  rw [max_assoc, max_self]
+
+/-! ## removing tracks in a rectangle -/
+
+/-- **`remove_tracks_in_rect` removes exactly the tracks with a node (`all_points`: with all nodes)
+    inside the half-open rectangle** `[min t, max t) × [min x, max x)` in seconds × position units —
+    whichever order the two corners are given in —, keeps all other tracks, unchanged and in order. -/
+theorem removeInRect_spec (k : Kymo) (r : Rect) (all : Bool) (g : List Track) :
+    removeInRect k r all g = g.filter fun tr =>
+      let inside : Pt → Prop := fun p =>
+        min r.t0 r.t1 ≤ k.lt * p.1 ∧ k.lt * p.1 < max r.t0 r.t1 ∧
+        min r.x0 r.x1 ≤ p.2 * k.px ∧ p.2 * k.px < max r.x0 r.x1
+      if all then decide (¬ ∀ p ∈ tr.pts, inside p) else decide (¬ ∃ p ∈ tr.pts, inside p) := by
+  unfold removeInRect
+  congr 1
+  funext tr
+  have hmin : ∀ a b : Rat, (if a > b then b else a) = min a b := by
+    intro a b
+    by_cases h : a > b
+    · simp [h, min_eq_right (le_of_lt h)]
+    · simp [h, min_eq_left (not_lt.1 h)]
+  have hmax : ∀ a b : Rat, (if a > b then a else b) = max a b := by
+    intro a b
+    by_cases h : a > b
+    · simp [h, max_eq_left (le_of_lt h)]
+    · simp [h, max_eq_right (not_lt.1 h)]
+  have hpt : ∀ p : Pt, ptInRect k r.ordered p = decide (min r.t0 r.t1 ≤ k.lt * p.1 ∧ k.lt * p.1 < max r.t0 r.t1 ∧
+        min r.x0 r.x1 ≤ p.2 * k.px ∧ p.2 * k.px < max r.x0 r.x1) := by
+    intro p
+    simp only [ptInRect, Rect.ordered, hmin, hmax, Bool.decide_and]
+    cases decide (k.lt * ↑p.1 < max r.t0 r.t1) <;> cases decide (min r.t0 r.t1 ≤ k.lt * ↑p.1) <;>
+      cases decide (p.2 * k.px < max r.x0 r.x1) <;> cases decide (min r.x0 r.x1 ≤ p.2 * k.px) <;> rfl
+  have hfun := funext hpt
+  cases all with
+  | true =>
+    simp only [inRect, if_true, hfun]
+    rw [Bool.eq_iff_iff]
+    simp
+  | false =>
+    simp only [inRect, Bool.false_eq_true, if_false, hfun]
+    rw [Bool.eq_iff_iff]
+    simp
+
+example : removeInRect ⟨1 / 10, some (1 / 10), 1 / 8⟩ ⟨1 / 2, 1, 0, 0⟩ false
+      [⟨[(0, 1), (5, 2)], none, none⟩, ⟨[(1, 12), (2, 3)], none, none⟩, ⟨[(4, 1)], none, none⟩]
+    = [⟨[(4, 1)], none, none⟩] := by decide +kernel
 
 end Verif.C17
